@@ -30,7 +30,7 @@ def search_borders(job):
 
 
 def search_styles(job):
-    return _run([{"kind": "styles", "seed": s, "n_styles": 1 + s % 2, "read_first": True, "image": s == 0} for s in range(6)])
+    return _run([{"kind": "styles", "seed": s, "n_styles": 1 + s % 2, "read_first": True, "image": s == 0, "modify": s % 2 == 1} for s in range(8)])
 
 
 def replay_case(job):
